@@ -1,8 +1,12 @@
 -- driver for C15 (and, through MainC08, for C08): gcno/gcda model
 import GrcovModel.Drv.C15
+import GrcovModel.Drv.C08Records
 open Grcov.Drv
 
-def step (line : String) : String := stepGcno line
+def step (line : String) : String :=
+  match (line.trimAscii.toString.splitOn " ").filter (· ≠ "") with
+  | "c15.stamp" :: args => handleC15Stamp args
+  | _ => stepGcno line
 
 partial def loop (h : IO.FS.Stream) (out : IO.FS.Stream) : IO Unit := do
   let line ← h.getLine
